@@ -16,8 +16,8 @@ class RLeaf(N.Leaf):
         self.k = k
 
     def apply(self, data):
-        TRACE.append(self.k)
-        return data
+        TRACE.append((self.k, data))
+        return None if self.k % 3 == 2 else ("v", self.k)     # some leaves produce None (JSON null)
 
 
 class RDec(N.Decision):
@@ -26,8 +26,8 @@ class RDec(N.Decision):
         self.k = k
 
     def apply(self, data):
-        TRACE.append(self.k)
-        return data
+        TRACE.append((self.k, data))
+        return ("d", self.k)
 
 
 class RNoOp(N.NoOpDecision):
@@ -36,8 +36,8 @@ class RNoOp(N.NoOpDecision):
         self.k = k
 
     def apply(self, data):
-        TRACE.append(self.k)
-        return data
+        TRACE.append((self.k, data))
+        return ("d", self.k)
 
 
 class RRef(N.Reference):
@@ -64,6 +64,12 @@ def build(ops):
             nodes.append(RRef(k, enc_id(o[2]), enc_id(o[1])))
         elif o[0] == 'T':
             nodes[o[1]].add_transition(nodes[o[2]])
+        elif o[0] == 'G':
+            try:
+                for _ in nodes[0].generate_paths():
+                    pass
+            except Exception:  # noqa
+                pass
     return nodes
 
 
@@ -76,13 +82,15 @@ def ops_tokens(ops):
             t += ['1', str(int(o[1])), str(int(o[2])), str(-1 if o[3] is None else o[3])]
         elif o[0] == 'R':
             t += ['2', str(o[1]), str(-1 if o[2] is None else o[2])]
+        elif o[0] == 'G':
+            t += ['4']
         else:
             t += ['3', str(o[1]), str(o[2])]
     return t
 
 
 def case_line(variant, fuel, root, ops, xpaths=()):
-    t = ['G', str(int(variant[0])), str(int(variant[1])), str(fuel), str(root)] + ops_tokens(ops)
+    t = ['G'] + [str(int(v)) for v in variant] + [str(fuel), str(root)] + ops_tokens(ops)
     t.append(str(len(xpaths)))
     for p in xpaths:
         t.append(str(len(p)))
@@ -123,9 +131,22 @@ def dist(x):
 
 
 def execute_trace(root, path):
+    """nodes applied, in order"""
     del TRACE[:]
     root.execute(list(path))
-    return list(TRACE)
+    return [k for k, _ in TRACE]
+
+
+def _tokd(d):
+    return "-" if d is None else str(d[1]) if isinstance(d, tuple) and d[0] == "d" else "?%r" % (d,)
+
+
+def execute_full(root, path):
+    """applied nodes with the data each received, and the returned value"""
+    del TRACE[:]
+    r = root.execute(list(path))
+    tr = ".".join("%d<%s" % (k, _tokd(d)) for k, d in TRACE)
+    return tr + ">" + ("N" if r is None else str(r[1]) if isinstance(r, tuple) and r[0] == "v" else "?%r" % (r,))
 
 
 def observe(ops, root, xpaths=()):
@@ -163,8 +184,8 @@ def observe(ops, root, xpaths=()):
         out.append("annot=" + "".join(a))
         out.append("entries=" + ";".join("%d/%s/%d" % (e.target.k, ints(e.path), int(e.is_valid)) for e in entries))
         out.append("status=" + status)
-        out.append("exec=" + ";".join(res(lambda e=e: execute_trace(r, e.path), ints) for e in entries))
-    out.append("xexec=" + ";".join(res(lambda p=p: execute_trace(r, p), ints) for p in xpaths))
+        out.append("exec=" + ";".join(res(lambda e=e: execute_full(r, e.path), str) for e in entries))
+    out.append("xexec=" + ";".join(res(lambda p=p: execute_full(r, p), str) for p in xpaths))
     return "|".join(out)
 
 
@@ -174,7 +195,7 @@ def observe(ops, root, xpaths=()):
 def wf(ops, root):
     """well-formed in the sense of C03: decisions have >= 1 child, all nodes reachable from root,
     root has no incoming transition, no references."""
-    kinds = [o for o in ops if o[0] != 'T']
+    kinds = [o for o in ops if o[0] not in 'TG']
     n = len(kinds)
     outs = {i: [] for i in range(n)}
     indeg = [0] * n
@@ -201,7 +222,7 @@ def wf(ops, root):
 
 
 def _tables(ops):
-    kinds = [o for o in ops if o[0] != 'T']
+    kinds = [o for o in ops if o[0] not in 'TG']
     outs = {i: [] for i in range(len(kinds))}
     for o in ops:
         if o[0] == 'T':
@@ -295,18 +316,18 @@ def random_program(rng: random.Random, max_nodes=10, allow_bad=True):
                 t = rng.randrange(1, n) if n > 1 else 0
                 edges.append((d, t))
         rng.shuffle(edges)
-    ops = list(kinds) + [('T', s, t) for s, t in edges]
-    # interleave: some node creations after transitions (order of attachment matters)
+    tops = [('T', s, t) for s, t in edges]
+    # multi-step programs: generate_paths() exhausted in between, then the graph keeps growing
+    if tops and rng.random() < 0.15:
+        for _ in range(rng.choice([1, 1, 2])):
+            tops.insert(rng.randint(1, len(tops)), ('G',))
+    ops = list(kinds) + tops
     return ops, 0
 
 
 def complete_paths(ops, root, depth=6, limit=40):
     """enumerate complete paths (index lists) up to a number of choices, by simulation"""
-    kinds = [o for o in ops if o[0] != 'T']
-    outs = {i: [] for i in range(len(kinds))}
-    for o in ops:
-        if o[0] == 'T':
-            outs[o[1]].append(o[2])
+    kinds, outs = _tables(ops)
     res_ = []
 
     def go(stack, path, fuel):
